@@ -1379,7 +1379,10 @@ func (n *ReconcileNode) assignIP(ctx context.Context, opt *eniOptions) error {
 			MetaCtx(ctx).Mutex.Lock()
 			lo.ForEach(result, func(item aliyunClient.IPSet, index int) {
 				if item.IPName != "" {
+					// the address itself is not known yet: keyed by its name (as convertIPSet
+					// does), so that two of them on one eni do not overwrite each other
 					addIPToMap(opt.eniRef.IPv4, &networkv1beta1.IP{
+						IP:     item.IPName,
 						IPName: item.IPName,
 						Status: networkv1beta1.IPStatusDeleting,
 					})
@@ -1430,6 +1433,7 @@ func (n *ReconcileNode) assignIP(ctx context.Context, opt *eniOptions) error {
 			lo.ForEach(result, func(item aliyunClient.IPSet, index int) {
 				if item.IPName != "" {
 					addIPToMap(opt.eniRef.IPv6, &networkv1beta1.IP{
+						IP:     item.IPName,
 						IPName: item.IPName,
 						Status: networkv1beta1.IPStatusDeleting,
 					})
